@@ -108,6 +108,25 @@ def check(ctx, case):
 		real = ','.join(f'{l}:{int(d * S)}' for l, d in depths)
 		linktok = ';'.join(f'{a},{b},{int(Fraction(float(h)) * S)}' for a, b, h in case['link']) if case['link'] else '_'
 		return [f'c17.convert {n} {linktok} {real}'], []
+	if case['kind'] == 'hclust':
+		# gambit.cluster.hclust (SciPy behind it) vs the exact UPGMA model: SciPy's merges replayed, heights exact
+		from gambit.cluster import hclust
+		n = case['n']
+		S = case['scale']
+		Dint = case['D']
+		dmat = np.array([[v / S for v in row] for row in Dint], dtype=case.get('dtype', 'f8'))
+		link = hclust(dmat)
+		pf = []
+		if link.shape != (n - 1, 4):
+			pf.append(f'linkage shape {link.shape} for {n} observations')
+		Dexact = [[int(Fraction(float(dmat[i, j])) * S) for j in range(n)] for i in range(n)]
+		rows = []
+		for a, b, h, cnt in link.tolist():
+			f = Fraction(float(h)) * S
+			rows.append(f'{int(a)},{int(b)},{f.numerator},{f.denominator}')
+		case['_nt'] = n >= 3 and len({v for row in Dint for v in row}) > 2
+		Dtok = ';'.join(','.join(str(v) for v in row) for row in Dexact)
+		return [f'c17.hclust {n} {Dtok} {";".join(rows) if rows else "_"}'], pf
 	gs = [w.genomes[i] for i in case['g']]
 	spec = w.spec if (case.get('explicit') or case['chan'] == 'sigs') else (11, 'ATGAC')
 	args = ['tree', '--no-progress']
@@ -190,6 +209,28 @@ def run(ctx):
 				link.append([min(a, b), max(a, b), h])
 				live.remove(a); live.remove(b); live.append(m + r)
 			sub({'kind': 'convert', 'n': m, 'link': link}, 'convert')
+		# hclust on synthetic symmetric matrices: wide random values (tie-free: the merge order is unique and must be the
+		# model's), small ranges / zeros / block structure (ties: every merge must still be a minimal pair)
+		for j in range(ctx.q(300, 4000)):
+			if not ctx.time_left(0.5):
+				break
+			m = rng.choice([2, 3, 4, 5, 6, 8, 12, rng.randint(2, 20)])
+			style = rng.choice(['wide', 'wide', 'small', 'zeros', 'blocks'])
+			S = 2 ** 20
+			D = [[0] * m for _ in range(m)]
+			grp = [rng.randrange(3) for _ in range(m)]
+			for a in range(m):
+				for b in range(a + 1, m):
+					if style == 'wide':
+						v = rng.randint(1, S)
+					elif style == 'small':
+						v = rng.randint(1, 4) * (S // 4)
+					elif style == 'zeros':
+						v = rng.choice([0, 0, rng.randint(1, S)])
+					else:
+						v = (rng.randint(1, S // 8) if grp[a] == grp[b] else rng.randint(S // 2, S))
+					D[a][b] = D[b][a] = v
+			sub({'kind': 'hclust', 'n': m, 'scale': S, 'D': D, 'dtype': rng.choice(['f8', 'f8', 'f4'])}, f'hclust-{style}')
 		for j in range(ctx.q(200, 1500)):
 			if not ctx.time_left(0.92):
 				break
